@@ -12,6 +12,7 @@ REQUIRED = [
     "C16.rho_positive_in_callback",
     "C16.second_solve.initial_rho_is_params_rho",
     "C16.second_solve.dualnorm_at_most_tenfold",
+    "C16.policy.rho_never_decreases",
 ]
 META = dict(
     functions_encoded=loop.FUNCTIONS,
@@ -23,10 +24,63 @@ META = dict(
 )
 
 
+def h_policy(E, shape):
+    """the six penalty policies driven directly (no solver loop): N updates on arbitrary accepted
+    iterates of an uninterpreted problem.  Every penalty handed back -- with an accepted step or with
+    a veto -- is positive and not below the one before; the constant policy never changes it."""
+    from symx import boot
+    from symx.core import land
+    from . import common
+    from .common import arr
+
+    P = boot.mod("params")
+    PEN = boot.mod("penalty")
+    Iterate = boot.mod("iterate").Iterate
+    pol = shape["policy"]
+    user, spec = common.make_problem(E, shape.get("vars", ["boxed"]), shape.get("cons", ["eq0"]))
+    rho0 = E.real("rho", lo=0, lo_strict=True)
+    opt_tol = E.real("opt_tol", lo=0, lo_strict=True)
+    params = P.Params(rho=rho0, opt_tol=opt_tol, penalty_update=P.PenaltyUpdate[pol])
+    strat = PEN.penalty_strategy(user, params)
+
+    def point(tag):
+        xs = []
+        for j in range(spec["n"]):
+            v = E.real(f"{tag}x{j}")
+            E.assume(land(spec["xl"][j] <= v, v <= spec["xu"][j]))
+            xs.append(v)
+        ys = [E.real(f"{tag}y{i}") for i in range(spec["m"])]
+        return Iterate(user, params, arr(xs), arr(ys))
+
+    cur = point("p0")
+    rho = strat.initial(cur)
+    E.prove(rho == rho0, "C16.initial_rho_is_params_rho")
+    for k in range(shape.get("N", 3)):
+        nxt = point(f"p{k + 1}")
+        res = strat.update(cur, nxt)
+        E.prove(res.next_rho > 0, "C16.policy.rho_positive")
+        E.prove(res.next_rho >= rho, "C16.policy.rho_never_decreases", info=dict(step=k, accepted=bool(res.accept)))
+        if pol == "Constant":
+            E.prove(res.next_rho == rho0, "C16.constant_policy_never_changes")
+        rho = res.next_rho
+        if res.accept:
+            cur = nxt
+    E.prove(params.rho == rho0, "C10.params_object_not_modified")
+
+
 def second_solves(tier):
     o = dict(mulmode="uf", timeout_ms=20000)
     K = 2 if tier == "quick" else 3
     return [dict(module="twin", fn="h_second_solve_penalty", shape=dict(K=K, policy=p, vars=["boxed"], cons=c), opts=o) for p, c in (("DualNorm", ["eq0"]), ("Constant", ["eq0"]), ("DualEquilibration", ["eq0"]), ("ObjectiveFilter", []))]
+
+
+def policies(tier):
+    # exact arithmetic (nlsat): the counterexamples of this small harness replay
+    out = []
+    for p in loop.POLICIES:
+        N = 2 if (tier == "quick" or p in loop.HEAVY) else 3
+        out.append(dict(module="C16", fn="h_policy", shape=dict(policy=p, N=N), opts=dict(nra=True, timeout_ms=30000)))
+    return out
 
 
 def tasks(tier):
@@ -34,6 +88,6 @@ def tasks(tier):
         combos = [dict(policy=p, cons=["eq0"]) for p in loop.POLICIES] + [dict(policy=p, cons=[]) for p in ("Constant", "DualNorm", "ObjectiveFilter")]
         # two constraint rows: the multiplier norm is a genuine vector norm (max-norm and 2-norm differ)
         combos += [dict(policy="DualNorm", cons=["eq0", "eq0"]), dict(policy="DualNorm", cons=["eq0", "ge"], step_failures=True), dict(policy="Constant", cons=["eq0", "eq0"])]
-        return loop.loop_tasks(combos, 2) + loop.loop_tasks([dict(policy=p, cons=[]) for p in loop.POLICIES], 4) + second_solves(tier)
+        return loop.loop_tasks(combos, 2) + loop.loop_tasks([dict(policy=p, cons=[]) for p in loop.POLICIES], 4) + second_solves(tier) + policies(tier)
     combos = [dict(policy=p, cons=c) for p in loop.POLICIES for c in (["eq0"], ["ge"])] + [dict(policy="DualNorm", cons=["eq0", "eq0"]), dict(policy="DualNorm", cons=["eq0", "ge"], step_failures=True), dict(policy="DualNorm", cons=["ranged", "le"], vars=["lower"])]
-    return loop.loop_tasks(combos, 3) + loop.loop_tasks([dict(policy=p, cons=[]) for p in loop.POLICIES], 4) + second_solves(tier)
+    return loop.loop_tasks(combos, 3) + loop.loop_tasks([dict(policy=p, cons=[]) for p in loop.POLICIES], 4) + second_solves(tier) + policies(tier)
